@@ -8,12 +8,13 @@ package harness
 // acknowledged ones.
 
 import (
-	"strings"
 	"context"
 	"fmt"
+	wpb "github.com/openconfig/ygot/proto/ywrapper"
 	"math/rand/v2"
 	"os"
 	"sort"
+	"strings"
 	"time"
 
 	aftpb "github.com/openconfig/gribi/v1/proto/gribi_aft"
@@ -63,7 +64,99 @@ func genConcShared(seed uint64, prop string) *Scenario {
 	return sc
 }
 
+// genConcHook: concshared with both change hooks registered and judged without a model: every
+// resolved-entry notification must be consistent with itself (its private snapshot has the entry it
+// announces as added, lacks the one it announces as deleted - whatever other writers did meanwhile),
+// and the fold of the post-change notifications must equal the implementation's own RIB contents at
+// the final quiescent point.
+func genConcHook(seed uint64, prop string) *Scenario {
+	r := rand.New(rand.NewPCG(seed, 0x63686b))
+	if r.IntN(3) == 0 {
+		sc := genConcShared(seed, prop)
+		sc.Family = "conchook"
+		sc.Cfg.Hooks, sc.Cfg.HookMute = "both", true // (mute: the model-based fold comparison of the g1 family does not apply)
+		return sc
+	}
+	// Directed shape: a handful of top-level keys whose group is installed, so that every ADD installs at once;
+	// the first session prepares them and then keeps adding and deleting them while one or two more sessions
+	// connect late, take the primary role (equal or higher id) and do the same to the SAME keys.
+	cfg := ScenCfg{Default: "DEFAULT", VRFs: []string{"VRF-A"}, FwdRefs: true, Hooks: "both", HookMute: true}
+	cfg.Policy = []string{"fine", "pct", "pct", "pct"}[r.IntN(4)]
+	cfg.PCTDepth = 1 + r.IntN(4)
+	cfg.Window = []int{0, 0, 1, 4}[r.IntN(4)]
+	cfg.FIBAck = r.IntN(2) == 0
+	sc := &Scenario{Family: "conchook", Seed: seed, Cfg: cfg}
+	g := newGen(seed, 0x63686c, &sc.Cfg)
+	opID := uint64(0)
+	id := func(s int) uint64 { opID++; return uint64(100000*(s+1)) + opID }
+	nh := func(s int) *spb.AFTOperation {
+		return &spb.AFTOperation{Id: id(s), NetworkInstance: "DEFAULT", Op: spb.AFTOperation_ADD, Entry: &spb.AFTOperation_NextHop{NextHop: &aftpb.Afts_NextHopKey{Index: 1, NextHop: &aftpb.Afts_NextHop{IpAddress: sv("192.0.2.1")}}}}
+	}
+	grp := func(s int) *spb.AFTOperation {
+		return &spb.AFTOperation{Id: id(s), NetworkInstance: "DEFAULT", Op: spb.AFTOperation_ADD, Entry: &spb.AFTOperation_NextHopGroup{NextHopGroup: &aftpb.Afts_NextHopGroupKey{Id: 1, NextHopGroup: &aftpb.Afts_NextHopGroup{
+			NextHop: []*aftpb.Afts_NextHopGroup_NextHopKey{{Index: 1, NextHop: &aftpb.Afts_NextHopGroup_NextHop{Weight: u(1)}}}}}}}
+	}
+	toggle := func(s int) *spb.AFTOperation {
+		ni := []string{"DEFAULT", "VRF-A"}[g.pick(2)]
+		var nin *wpb.StringValue
+		if ni != "DEFAULT" {
+			nin = sv("DEFAULT")
+		}
+		// few keys, as many ADDs as DELETEs: two sessions meet on the same key all the time
+		o := &spb.AFTOperation{Id: id(s), NetworkInstance: ni, Op: []spb.AFTOperation_Operation{spb.AFTOperation_ADD, spb.AFTOperation_DELETE}[g.pick(2)]}
+		switch g.pick(6) {
+		case 0, 1, 2, 3:
+			o.Entry = &spb.AFTOperation_Ipv4{Ipv4: &aftpb.Afts_Ipv4EntryKey{Prefix: v4Prefixes[0], Ipv4Entry: &aftpb.Afts_Ipv4Entry{NextHopGroup: u(1), NextHopGroupNetworkInstance: nin, EntryMetadata: g.meta()}}}
+		case 4:
+			o.Entry = &spb.AFTOperation_Ipv6{Ipv6: &aftpb.Afts_Ipv6EntryKey{Prefix: v6Prefixes[0], Ipv6Entry: &aftpb.Afts_Ipv6Entry{NextHopGroup: u(1), NextHopGroupNetworkInstance: nin, EntryMetadata: g.meta()}}}
+		default:
+			o.Entry = &spb.AFTOperation_Mpls{Mpls: &aftpb.Afts_LabelEntryKey{Label: &aftpb.Afts_LabelEntryKey_LabelUint64{LabelUint64: labels[0]}, LabelEntry: &aftpb.Afts_LabelEntry{NextHopGroup: u(1), NextHopGroupNetworkInstance: nin, EntryMetadata: g.meta()}}}
+		}
+		if o.Op == spb.AFTOperation_DELETE && g.chance(1, 2) {
+			stripPayload(o)
+		}
+		return o
+	}
+	batch := func(s, n int) Step {
+		var ops []*spb.AFTOperation
+		for i := 0; i < n; i++ {
+			ops = append(ops, toggle(s))
+		}
+		st := g.batchStep(s, ops)
+		st.T = "s-ops"
+		return st
+	}
+	nsess := 2 + r.IntN(2)
+	for s := 0; s < nsess; s++ {
+		if s > 0 {
+			sc.Steps = append(sc.Steps, Step{T: "s-join", Sess: s, A: 10 + r.IntN(120)})
+		}
+		e := [2]uint64{0, uint64(5 + r.IntN(2)*s)}
+		sc.Steps = append(sc.Steps, Step{T: "s-elect", Sess: s, Elec: &e})
+		if s == 0 {
+			prep := g.batchStep(0, []*spb.AFTOperation{nh(0), grp(0), toggle(0), toggle(0), toggle(0)})
+			prep.T = "s-ops"
+			sc.Steps = append(sc.Steps, prep)
+		}
+		nb := 2 + r.IntN(3)
+		if s == 0 {
+			nb = 3 + r.IntN(4) // the first session is busy for long enough that the others arrive in the middle of a request
+		}
+		for b := 0; b < nb; b++ {
+			sc.Steps = append(sc.Steps, batch(s, 6+r.IntN(9)))
+		}
+	}
+	if r.IntN(3) == 0 {
+		sc.Steps = append(sc.Steps, Step{T: "reader", Sess: 100, Get: &GetSpec{All: true, AFT: int32(spb.AFTType_ALL)}, A: 1 + r.IntN(2)})
+	}
+	if r.IntN(5) == 0 {
+		sc.Steps = append(sc.Steps, Step{T: "flusher", Sess: 200, Flush: &FlushSpec{All: true, Override: true}, A: 20 + r.IntN(60)})
+	}
+	return sc
+}
+
 func init() {
+	families["conchook"] = &family{gen: genConcHook, run: runConc}
 	families["concshared"] = &family{gen: genConcShared, run: runConc}
 	families["conc"] = &family{gen: genConc, run: runConc}
 }
@@ -545,7 +638,7 @@ func runConc(e *env) {
 								sig = "result for another session's operation that may have been held"
 							}
 						}
-						if e.sc.Family == "concshared" && strings.HasSuffix(sig, "may have been held") {
+						if (e.sc.Family == "concshared" || e.sc.Family == "conchook") && strings.HasSuffix(sig, "may have been held") {
 							// shared keys: another session's install resolved it - the known finding about held
 							// operations being keyed by id only (C06's clause, not a concurrency defect)
 							e.report("C06", "foreign-result", "result for held operation of another session (shared key space)", fmt.Sprintf("stream of session %d: %v", sn, res), true)
@@ -586,7 +679,10 @@ func runConc(e *env) {
 	if h := e.implHeldResolvable(); len(h) > 0 {
 		e.report("C11", "resolvable-left-held", "an operation is still held at quiescence although everything it references is installed", fmt.Sprint(h), false)
 	}
-	shared := e.sc.Family == "concshared"
+	if e.sc.Family == "conchook" {
+		e.checkHooksAgainstImpl("at the end of the concurrent run")
+	}
+	shared := e.sc.Family == "concshared" || e.sc.Family == "conchook"
 	switch {
 	case shared:
 		e.probe("shared key space: invariants only")
@@ -614,6 +710,9 @@ func runConc(e *env) {
 		e.propOverride = ""
 	}
 	e.serviceProbe("C11", "after the concurrent run")
+	if e.sc.Family == "conchook" {
+		e.checkHooksAgainstImpl("after the service probe's Flush")
+	}
 }
 
 // processResultsConc replays one session's results; operations rejected because the
